@@ -90,3 +90,55 @@ pub fn cut_is_interesting(b: &[u8], p: usize) -> bool {
         None => false,
     }
 }
+
+/// With probability 1/`one_in`, splice a long construct (600-3000 bytes: text run, attribute
+/// value, comment body, tag or attribute name) into the input at an ASCII boundary, so that
+/// buffer growth, the 1 KiB decoder buffer and re-buffering across writes are exercised.
+pub fn maybe_long(t: &mut Tape<'_>, input: Vec<u8>, one_in: usize) -> Vec<u8> {
+    if !t.chance(1, one_in) {
+        return input;
+    }
+    let n = *t.pick(&[600usize, 1000, 1024, 1100, 2100, 3000]);
+    let body = vec![*t.pick(b"xyz09"); n];
+    let mut piece: Vec<u8> = Vec::with_capacity(n + 32);
+    match t.below(6) {
+        0 => piece.extend_from_slice(&body),
+        1 => {
+            piece.extend_from_slice(b"<a title=\"");
+            piece.extend_from_slice(&body);
+            piece.extend_from_slice(b"\" id=q>");
+        }
+        2 => {
+            piece.extend_from_slice(b"<!--");
+            piece.extend_from_slice(&body);
+            piece.extend_from_slice(b"-->");
+        }
+        3 => {
+            piece.extend_from_slice(b"<t");
+            piece.extend_from_slice(&body);
+            piece.extend_from_slice(b" a=b>");
+        }
+        4 => {
+            piece.extend_from_slice(b"<a ");
+            piece.extend_from_slice(&body);
+            piece.extend_from_slice(b"=1>");
+        }
+        _ => {
+            piece.extend_from_slice(b"<style>");
+            piece.extend_from_slice(&body);
+            piece.extend_from_slice(b"</style>");
+        }
+    }
+    let mut at = frac_to_pos_local(t.frac(), input.len());
+    while at > 0 && (input[at - 1] >= 0x80 || input.get(at).is_some_and(|b| *b >= 0x80)) {
+        at -= 1;
+    }
+    let mut v = input[..at].to_vec();
+    v.extend_from_slice(&piece);
+    v.extend_from_slice(&input[at..]);
+    v
+}
+
+fn frac_to_pos_local(frac: u16, len: usize) -> usize {
+    ((frac as u64 * (len as u64 + 1)) >> 16) as usize
+}
